@@ -24,7 +24,7 @@ C_FUNCS = [
     ("trees.c", "tsk_tree_seek_index"),
     ("trees.c", "tsk_tree_copy"),
 ]
-BOUNDED = [{"name": "navigation_histories", "module": "standins.c01_trees", "timeout": 900}]
+BOUNDED = [{"name": "navigation_histories", "module": "standins.c01_trees", "timeout": 900, "asan": "thorough"}]
 UNVERIFIED = ["tsk_tree_seek_from_null (assumed contract)", "tsk_tree_seek_linear (assumed contract)",
               "tsk_tree_init (assumed contract)", "tsk_tree_next", "tsk_tree_prev", "tsk_tree_first", "tsk_tree_last",
               "tsk_tree_clear", "python Tree.seek/seek_index wrappers"]
